@@ -250,80 +250,86 @@ func (pnf *PageNumberFinder) getPageInfoAndText(link *html.Node, pageURL *nurl.U
 //
 // Returns true to continue search, false to stop.
 func (pnf *PageNumberFinder) findAndAddClosestValidLeafNodes(start *html.Node, checkStart, backward bool, pageURL *nurl.URL) bool {
-	var node *html.Node
-	if checkStart {
-		node = start
-	} else {
-		if backward {
-			node = start.PrevSibling
+	// The search moves from node to node in a loop instead of by recursion: the
+	// number of steps is the number of nodes that are passed, which in a long
+	// run of siblings is far more than a call stack can hold.
+	for {
+		var node *html.Node
+		if checkStart {
+			node = start
 		} else {
-			node = start.NextSibling
-		}
-	}
-
-	if node == nil {
-		node = start.Parent
-		if node == nil || rxInvalidParentWrapper.MatchString(domutil.NodeName(node)) {
-			return false
-		}
-		return pnf.findAndAddClosestValidLeafNodes(node, false, backward, pageURL)
-	}
-
-	checkStart = false
-	switch node.Type {
-	case html.TextNode:
-		// Text must contain words.
-		text := node.Data
-		if text == "" || pnf.wordCounter.Count(text) == 0 {
-			break
-		}
-
-		added := pnf.addNonLinkTextIfValid(text)
-
-		// For backward search, we're done regardless if text was added.
-		// For forward search, we're done only if text was invalid, otherwise continue.
-		if backward || !added {
-			return false
-		}
-
-	case html.ElementNode:
-		if dom.TagName(node) == "a" {
-			// For backward search, we're done because we've already processed the anchor.
 			if backward {
+				node = start.PrevSibling
+			} else {
+				node = start.NextSibling
+			}
+		}
+
+		if node == nil {
+			node = start.Parent
+			if node == nil || rxInvalidParentWrapper.MatchString(domutil.NodeName(node)) {
+				return false
+			}
+			start, checkStart = node, false
+			continue
+		}
+
+		checkStart = false
+		switch node.Type {
+		case html.TextNode:
+			// Text must contain words.
+			text := node.Data
+			if text == "" || pnf.wordCounter.Count(text) == 0 {
+				break
+			}
+
+			added := pnf.addNonLinkTextIfValid(text)
+
+			// For backward search, we're done regardless if text was added.
+			// For forward search, we're done only if text was invalid, otherwise continue.
+			if backward || !added {
 				return false
 			}
 
-			// For forward search, we're done only if link was invalid, otherwise continue.
-			pnf.numForwardLinksProcessed++
-			added := pnf.addLinkIfValid(node, pageURL)
-			if !added {
-				return false
+		case html.ElementNode:
+			if dom.TagName(node) == "a" {
+				// For backward search, we're done because we've already processed the anchor.
+				if backward {
+					return false
+				}
+
+				// For forward search, we're done only if link was invalid, otherwise continue.
+				pnf.numForwardLinksProcessed++
+				added := pnf.addLinkIfValid(node, pageURL)
+				if !added {
+					return false
+				}
+				break
 			}
-			break
+
+			// Intentionally fallthrough
+			fallthrough
+
+		default:
+			// Check children nodes.
+			if len(dom.ChildNodes(node)) == 0 {
+				break
+			}
+
+			checkStart = true // We want to check the child node.
+			if backward {
+				// Start the backward search with the rightmost child i.e. last and closest to
+				// given node.
+				node = node.LastChild
+			} else {
+				// Start the forward search with the leftmost child i.e. first and closest to
+				// given node.
+				node = node.FirstChild
+			}
 		}
 
-		// Intentionally fallthrough
-		fallthrough
-
-	default:
-		// Check children nodes.
-		if len(dom.ChildNodes(node)) == 0 {
-			break
-		}
-
-		checkStart = true // We want to check the child node.
-		if backward {
-			// Start the backward search with the rightmost child i.e. last and closest to
-			// given node.
-			node = node.LastChild
-		} else {
-			// Start the forward search with the leftmost child i.e. first and closest to
-			// given node.
-			node = node.FirstChild
-		}
+		start = node
 	}
-
-	return pnf.findAndAddClosestValidLeafNodes(node, checkStart, backward, pageURL)
 }
 
 // addNonLinkTextIfValid handles the text for a non-link node. Each numeric term in the text
